@@ -172,7 +172,7 @@ pub fn run(rep: &mut Report, driver: &str, workers: usize, thorough: bool, seed:
     let model = par_batch(driver, workers, &reqs);
     let mut sr = StreamReport::new(
         "poll-schedules",
-        "8 rulesets (one of them with 60 rules; cached / uncached / failing user functions, lazy and strict operators, references missing only on the branch one input takes, a cacheable call completed before a suspending one) x suspension patterns (each user-function call returns Pending 0..3 times) x cacheability; two evaluations of ONE shared RuleSet on different inputs polled by a hand-rolled executor (no-op waker) under EVERY interleaving of their polls (up to 924 schedules per case; larger cases: 400 sampled), every abandonment point of one evaluation (dropped after j polls) followed by a fresh evaluation — with a second evaluation in flight, and alone followed by four fresh evaluations —, every sequence of three completed evaluations over the two inputs, 3 consecutive evaluations, and two rulesets built from clones of the same rules (different symbols and functions) evaluated alternately; compared per evaluation: outcomes and the order of its own user-function invocations, against the model's sequential result",
+        "8 rulesets (one of them with 60 rules; cached / uncached / failing user functions, lazy and strict operators, references missing only on the branch one input takes, a cacheable call completed before a suspending one) x suspension patterns (each user-function call returns Pending 0..3 times) x cacheability; two evaluations of ONE shared RuleSet on different inputs polled by a hand-rolled executor (no-op waker) under EVERY interleaving of their polls (up to 924 schedules per case; larger cases: 400 sampled), every abandonment point of one evaluation (dropped after j polls) followed by a fresh evaluation — with a second evaluation in flight, and alone followed by four fresh evaluations —, every sequence of three completed evaluations over the two inputs, 3 consecutive evaluations, two rulesets built from clones of the same rules (different symbols and functions) evaluated alternately, and rules cloned out of one ruleset's outcomes loaded into another; compared per evaluation: outcomes and the order of its own user-function invocations, against the model's sequential result",
         false,
     );
     let max_sched = if thorough { 924 } else { 300 };
@@ -378,6 +378,65 @@ pub fn run(rep: &mut Report, driver: &str, workers: usize, thorough: bool, seed:
                 sr.hist("kind", "rules-shared-by-two-rulesets");
                 if got != want {
                     rep.add_finding(Finding { kind: "impl-violates-property".into(), stream: "poll-schedules".into(), case: format!("shared-rules\t{:?}\t{}", order, n), human: format!("two rulesets built from clones of the same rules, evaluated in the order {:?}: evaluation #{} (ruleset {})", order, n + 1, k), impl_out: got, model_out: want, predicate: "the outcomes of a ruleset do not depend on evaluations of another ruleset that holds clones of the same rules".into(), signature: "C12 shared-rules".into() });
+                }
+            }
+        }
+    }
+    // (f) rules taken back out of an evaluation (`outcome.rule.clone()`) and loaded into another ruleset with different
+    //     symbols and functions: what the first ruleset computed does not travel with the rule
+    {
+        let rules: Vec<Expr> = vec![
+            mk_bin("mult", Expr::Symbol("net".into()), lit(Value::Int(2))),
+            Expr::Symbol("tier".into()),
+            iff(Expr::Symbol("flag".into()), Expr::Symbol("net".into()), lit(Value::Int(0))),
+            lit(Value::Int(7)),
+            Expr::Vec(vec![Expr::Symbol("net".into()), lit(Value::Int(1))]),
+            call("g", Expr::Symbol("net".into())),
+            mk_bin("add", reff("x"), Expr::Symbol("net".into())),
+        ];
+        let envs = [
+            EnvSpec { syms: vec![("net".into(), Value::Int(10)), ("tier".into(), crate::pool::s("gold")), ("flag".into(), Value::Bool(true))], fns: vec![FnSpec::new("g", true, FnKind::Id)] },
+            EnvSpec { syms: vec![("net".into(), Value::Int(50)), ("tier".into(), crate::pool::s("basic"))], fns: vec![FnSpec::new("g", true, FnKind::Const(Value::Int(5)))] },
+        ];
+        let facts = [crate::pool::map(&[("x", Value::Int(1))]), crate::pool::map(&[("x", Value::Int(2))])];
+        let reqs: Vec<String> = (0..2).map(|k| RsCase { tag: String::new(), rules: rules.clone(), facts: facts[k].clone(), env: envs[k].clone(), evals: 1 }.request("(oracle)")).collect();
+        let model = par_batch(driver, workers, &reqs);
+        let mk = |rs: Vec<Rule>, k: usize| {
+            let shared = Arc::new(Shared::default());
+            let mut b = ruleset().with_rules(rs).expect("rules");
+            for f in &envs[k].fns {
+                b = b.with_function(HFn { name: leak(&f.name), spec: f.clone(), shared: shared.clone() }).expect("fn");
+            }
+            for (n, v) in &envs[k].syms {
+                b = b.with_symbol(n, v.clone());
+            }
+            b.build()
+        };
+        let r = catch_unwind(AssertUnwindSafe(|| {
+            let first = mk(rules.iter().enumerate().map(|(i, e)| Rule::new(format!("r{}", i), std::collections::BTreeMap::new(), e.clone())).collect(), 0);
+            // evaluated `times` times, then the rules are taken out of the outcomes
+            let mut res = vec![];
+            for times in [1usize, 2] {
+                let mut recycled: Vec<Rule> = vec![];
+                for _ in 0..times {
+                    let outs = block_on(first.evaluate_value(&facts[0])).expect("evaluate");
+                    recycled = outs.iter().map(|o| o.rule.clone()).collect();
+                }
+                let second = mk(recycled, 1);
+                res.push(block_on(mk_fut(&second, &facts[1])));
+            }
+            res
+        }));
+        sr.count("recycled-rules", true);
+        sr.hist("kind", "rules-taken-out-of-outcomes");
+        let want = field(&model[1], 0).to_string();
+        match r {
+            Err(p) => rep.add_finding(Finding { kind: "impl-violates-property".into(), stream: "poll-schedules".into(), case: "recycled-rules".into(), human: "rules cloned out of the outcomes of one ruleset and loaded into another".into(), impl_out: format!("PANIC {}", panic_msg(p)), model_out: want, predicate: "the outcomes depend only on the ruleset and the input".into(), signature: "C12 recycled-rules".into() }),
+            Ok(res) => {
+                for (n, got) in res.into_iter().enumerate() {
+                    if got != want {
+                        rep.add_finding(Finding { kind: "impl-violates-property".into(), stream: "poll-schedules".into(), case: format!("recycled-rules\t{}", n), human: format!("rules cloned out of the outcomes of a ruleset (net = 10) after {} evaluation(s) and loaded into a ruleset with net = 50", n + 1), impl_out: got, model_out: want.clone(), predicate: "the outcomes depend only on the ruleset and the input, not on what another ruleset computed with the same Rule values before".into(), signature: "C12 recycled-rules".into() });
+                    }
                 }
             }
         }
